@@ -68,6 +68,55 @@ def short_user_iterator(e):
     return False
 
 
+def size_was_validated(e):
+    """the rounding / padding whose overflow edge leads to this panic operates on the size of a Layout value, or on an integer
+    that a validating Layout constructor accepted on this very path (so it is <= isize::MAX and the additions cannot wrap)"""
+    facts = e.state.facts
+    validated = [f[1] for f in facts if f[0] == 'is' and f[2] in ('Ok', 'Some') and isinstance(f[1], tuple) and f[1][:1] == ('app',) and f[1][1] in ('layout_result', 'layout_array', 'layout_new', 'layout_for_value')]
+    val_args = set()
+    for v in validated:
+        for a in v[2:]:
+            if isinstance(a, tuple):
+                val_args.add(a)
+    nones = [f[1] for f in facts if f[0] == 'is' and f[2] == 'None' and isinstance(f[1], tuple) and f[1][:2] == ('app', 'checked_add')]
+
+    def existing_value_size(x):
+        # size_of::<T>(), len(existing slice / str) * size_of::<T>(): the size of a value that exists (<= isize::MAX)
+        if not isinstance(x, tuple):
+            return False
+        if x[0] == 'c':
+            return True
+        if x[0] == 'sym' and str(x[1]).startswith(('sizeof(', 'alignof(')):
+            return True
+        if x[0] == 'app' and x[1] in ('sizeof', 'alignof'):
+            return True
+        if x[0] == 'app' and x[1] == 'len' and len(x) == 3 and isinstance(x[2], tuple) and x[2][0] in ('param', 'call', 'load'):
+            return True
+        if x[0] == 'app' and x[1] == 'mul' and len(x) == 4:
+            return existing_value_size(x[2]) and existing_value_size(x[3])
+        return False
+
+    def bounded(x):
+        if any(isinstance(t, tuple) and t[:2] == ('app', 'size') for t in subterms(x)):
+            return True
+        if existing_value_size(x):
+            return True
+        # an already rounded / padded value: bounded when the request inside every rounding is
+        inner = [t[2] for t in subterms(x) if isinstance(t, tuple) and t[:2] == ('app', 'round_up') and len(t) > 3 and t is not x]
+        innermost = [q for q in inner if not any(isinstance(t, tuple) and t[:2] == ('app', 'round_up') for t in subterms(q) if t is not q)]
+        if innermost and all(bounded(q) for q in innermost):
+            return True
+        return any(a in subterms(x) or x == a for a in val_args)
+    if nones:
+        return all(bounded(n[2]) for n in nones)
+    # the later addition (+ OVERHEAD / + FOOTER_SIZE on an already rounded value): the request it derives from must be bounded
+    if bool(validated) or any(isinstance(t, tuple) and t[:2] == ('app', 'size') for f in facts for t in subterms(f)):
+        return True
+    # the request inside the rounded value
+    reqs = [t[2] for f in facts for t in subterms(f) if isinstance(t, tuple) and t[:2] == ('app', 'round_up') and len(t) > 3]
+    return bool(reqs) and all(bounded(q) for q in reqs)
+
+
 def min_align_validation(e):
     """the must-facts of the panic site say that the const parameter MIN_ALIGN is not a supported alignment"""
     M = sym('MIN_ALIGN')
@@ -101,7 +150,11 @@ def run(ctx, config='rel-all'):
         sites = panic_sites(I, r)
         sites_by_name[b['meta']['name']] = (I, r, sites)
         for k, evs in sorted(sites.items()):
-            if k in JUSTIFIED:
+            if k in JUSTIFIED and k[1] == 'allocation_size_overflow' and not all(size_was_validated(e) for e in evs):
+                # the table entry rests on "the request is a valid Layout": that has to be visible on the path, not assumed
+                bad = [e for e in evs if not size_was_validated(e)][0]
+                ctx.violation('R1', b['meta']['name'], 'panic:%s:%s:unvalidated-size' % k, 'try_ method %s reaches the size-overflow panic in %s with a size that no Layout constructor has validated on that path (a caller-supplied usize near usize::MAX panics instead of returning Err)' % (b['meta']['name'], k[0]), bad.span)
+            elif k in JUSTIFIED:
                 ctx.ok('R1', '%s: reachable %s in %s' % (b['meta']['name'], k[1], k[0]), 'justified: ' + JUSTIFIED[k])
             elif k[1] in ('Option::expect', 'Option::unwrap', 'expect', 'unwrap') and all(short_user_iterator(e) for e in evs):
                 ctx.ok('R1', '%s: reachable %s in %s' % (b['meta']['name'], k[1], k[0]), "justified: fires only when the caller's iterator yields fewer items than its len() promised (documented)")
